@@ -7,19 +7,24 @@
 (* datagrams.  Abstract run: reads a capture of NPkts packets of NConn       *)
 (* connections, delivers them, builds the output from the sessions.          *)
 (* Repaired = TRUE: run() starts from fresh module state (the fix).          *)
+(* The runs of one process may be on DIFFERENT captures (Caps): capture 2   *)
+(* is capture 1 cut before its last packet -- a run that ends with          *)
+(* unfinished per-session state; nothing of it may reach a later run.       *)
 (***************************************************************************)
 EXTENDS Naturals, Sequences, FiniteSets, TLC
 
-CONSTANTS NConn, PktsPerConn, Runs, Repaired, Seeds
+CONSTANTS NConn, PktsPerConn, Runs, Repaired, Seeds, Caps
 
-VARIABLES run, pos, sessions, keylog, ports, outputs, seed
-vars == <<run, pos, sessions, keylog, ports, outputs, seed>>
+VARIABLES run, pos, sessions, keylog, ports, outputs, seed, cap
+vars == <<run, pos, sessions, keylog, ports, outputs, seed, cap>>
 
-Capture == [i \in 1..(NConn * PktsPerConn) |-> ((i - 1) % NConn) + 1]      \* connection of the i-th packet (round robin)
+Full == [i \in 1..(NConn * PktsPerConn) |-> ((i - 1) % NConn) + 1]         \* connection of the i-th packet (round robin)
+Capture == IF cap = 1 THEN Full ELSE SubSeq(Full, 1, Len(Full) - 1)
 
 Fresh == /\ sessions' = <<>> /\ keylog' = <<>> /\ ports' = <<443, 44330>>
 StartRun == /\ pos = 0 /\ run < Runs
             /\ seed' \in Seeds                                  \* PYTHONHASHSEED / environment of this run: may differ between runs
+            /\ cap' \in Caps
             /\ IF Repaired \/ run = 0 THEN Fresh ELSE UNCHANGED <<sessions, keylog, ports>>
             /\ pos' = 1 /\ UNCHANGED <<run, outputs>>
 \* one packet: matched to the session of its connection (Demux.tla establishes that the match is unique, i.e. independent of
@@ -31,14 +36,14 @@ Packet == /\ pos >= 1 /\ pos <= Len(Capture)
                 THEN LET j == CHOOSE j \in idx : \A k \in idx : j <= k       \* first match in list order
                      IN sessions' = [sessions EXCEPT ![j].pkts = Append(@, pos)]
                 ELSE sessions' = Append(sessions, [conn |-> c, pkts |-> <<pos>>])
-          /\ pos' = pos + 1 /\ UNCHANGED <<run, keylog, ports, outputs, seed>>
+          /\ pos' = pos + 1 /\ UNCHANGED <<run, keylog, ports, outputs, seed, cap>>
 Finish == /\ pos = Len(Capture) + 1
-          /\ outputs' = Append(outputs, [j \in 1..Len(sessions) |-> sessions[j]])      \* the output is built from ALL sessions in the list
-          /\ run' = run + 1 /\ pos' = 0 /\ UNCHANGED <<sessions, keylog, ports, seed>>
-Init == run = 0 /\ pos = 0 /\ sessions = <<>> /\ keylog = <<>> /\ ports = <<443, 44330>> /\ outputs = <<>> /\ seed \in Seeds
+          /\ outputs' = Append(outputs, [cap |-> cap, res |-> [j \in 1..Len(sessions) |-> sessions[j]]])   \* built from ALL sessions in the list
+          /\ run' = run + 1 /\ pos' = 0 /\ UNCHANGED <<sessions, keylog, ports, seed, cap>>
+Init == run = 0 /\ pos = 0 /\ sessions = <<>> /\ keylog = <<>> /\ ports = <<443, 44330>> /\ outputs = <<>> /\ seed \in Seeds /\ cap \in Caps
 Next == StartRun \/ Packet \/ Finish
 Spec == Init /\ [][Next]_vars
 
-\* C18: every run's output equals the first run's, whatever the seeds
-OutputIsFunctionOfInputs == \A i \in 1..Len(outputs) : outputs[i] = outputs[1]
+\* C18: the output of a run is a function of its capture alone -- whatever the seeds and whatever earlier runs processed
+OutputIsFunctionOfInputs == \A i, j \in 1..Len(outputs) : outputs[i].cap = outputs[j].cap => outputs[i].res = outputs[j].res
 =============================================================================
